@@ -55,6 +55,13 @@ type ByzHost struct {
 	Balances  map[proto4.Account]types.Currency
 	Pools     map[proto4.Account]types.Currency
 
+	// SignKey, when set, signs revisions, contracts and renewals instead of Key
+	// (a host whose session identity is not the contract's host key). Key stays
+	// the key requests are validated against (the price table's signer).
+	SignKey types.PrivateKey
+	// ContractKey, when set, is the host key put into newly formed contracts.
+	ContractKey types.PublicKey
+
 	M Mut
 	// PlayAlong makes the host skip every request validation and answer an
 	// impossible request (range outside the contract, zero length, empty list)
@@ -141,6 +148,21 @@ func (h *ByzHost) harness(msg string) {
 		h.Harness = msg
 	}
 	h.mu.Unlock()
+}
+
+// contractKey is the host key of contracts this host forms.
+func (h *ByzHost) contractKey() types.PublicKey {
+	if h.ContractKey != (types.PublicKey{}) {
+		return h.ContractKey
+	}
+	return h.Key.PublicKey()
+}
+
+func (h *ByzHost) signer() types.PrivateKey {
+	if h.SignKey != nil {
+		return h.SignKey
+	}
+	return h.Key
 }
 
 func (h *ByzHost) at(idx int) bool { return h.M.Kind != "" && h.M.Msg == idx }
@@ -324,11 +346,11 @@ func (h *ByzHost) sigMut(sig *types.Signature, kind string, honest, prev types.V
 			alt.RenterOutput.Value = alt.RenterOutput.Value.Sub(types.NewCurrency64(1))
 			alt.HostOutput.Value = alt.HostOutput.Value.Add(types.NewCurrency64(1))
 		}
-		*sig = h.Key.SignHash(h.CS.ContractSigHash(alt))
+		*sig = h.signer().SignHash(h.CS.ContractSigHash(alt))
 	case "sig-other-number":
 		alt := honest
 		alt.RevisionNumber++
-		*sig = h.Key.SignHash(h.CS.ContractSigHash(alt))
+		*sig = h.signer().SignHash(h.CS.ContractSigHash(alt))
 	default:
 		return false
 	}
@@ -700,7 +722,7 @@ func (h *ByzHost) handleRoots(s net.Conn) error {
 		return nil
 	}
 	rev.RenterSignature = req.RenterSignature
-	rev.HostSignature = h.Key.SignHash(h.CS.ContractSigHash(rev))
+	rev.HostSignature = h.signer().SignHash(h.CS.ContractSigHash(rev))
 	off, ln := req.Offset, req.Length
 	if n := uint64(len(c.Roots)); h.PlayAlong && (ln == 0 || off > n || ln > n-off) {
 		// exactly `length` roots (real ones where they exist, made up beyond),
@@ -889,7 +911,7 @@ func (h *ByzHost) handleAppend(s net.Conn) error {
 	}
 	h.req(second)
 	rev.RenterSignature = second.RenterSignature
-	rev.HostSignature = h.Key.SignHash(h.CS.ContractSigHash(rev))
+	rev.HostSignature = h.signer().SignHash(h.CS.ContractSigHash(rev))
 	third := &proto4.RPCAppendSectorsThirdResponse{HostSignature: rev.HostSignature}
 	prev := c.Rev
 	if h.honest() {
@@ -993,7 +1015,7 @@ func (h *ByzHost) handleFree(s net.Conn) error {
 	}
 	h.req(second)
 	rev.RenterSignature = second.RenterSignature
-	rev.HostSignature = h.Key.SignHash(h.CS.ContractSigHash(rev))
+	rev.HostSignature = h.signer().SignHash(h.CS.ContractSigHash(rev))
 	third := &proto4.RPCFreeSectorsThirdResponse{HostSignature: rev.HostSignature}
 	prev := c.Rev
 	if h.honest() {
@@ -1045,7 +1067,7 @@ func (h *ByzHost) playAlongFree(s net.Conn, req proto4.RPCFreeSectorsRequest, c 
 	}
 	h.req(second)
 	rev.RenterSignature = second.RenterSignature
-	rev.HostSignature = h.Key.SignHash(h.CS.ContractSigHash(rev))
+	rev.HostSignature = h.signer().SignHash(h.CS.ContractSigHash(rev))
 	return h.emit(s, 1, &proto4.RPCFreeSectorsThirdResponse{HostSignature: rev.HostSignature}, nil)
 }
 
@@ -1073,7 +1095,7 @@ func (h *ByzHost) handleFund(s net.Conn) error {
 		return nil
 	}
 	rev.RenterSignature = req.RenterSignature
-	rev.HostSignature = h.Key.SignHash(h.CS.ContractSigHash(rev))
+	rev.HostSignature = h.signer().SignHash(h.CS.ContractSigHash(rev))
 	resp := &proto4.RPCFundAccountsResponse{HostSignature: rev.HostSignature}
 	bal := map[proto4.Account]types.Currency{}
 	for k, v := range h.Balances {
@@ -1198,7 +1220,7 @@ func (h *ByzHost) handleReplenish(s net.Conn, pools bool) error {
 	}
 	h.req(second)
 	rev.RenterSignature = second.RenterSignature
-	rev.HostSignature = h.Key.SignHash(h.CS.ContractSigHash(rev))
+	rev.HostSignature = h.signer().SignHash(h.CS.ContractSigHash(rev))
 	third := &proto4.RPCReplenishAccountsThirdResponse{HostSignature: rev.HostSignature}
 	prev := c.Rev
 	if h.honest() {
@@ -1284,7 +1306,7 @@ func (h *ByzHost) handleForm(s net.Conn) error {
 		return err
 	}
 	h.req(req)
-	fc, _ := proto4.NewContract(req.Prices, req.Contract, h.Key.PublicKey(), h.Addr)
+	fc, _ := proto4.NewContract(req.Prices, req.Contract, h.contractKey(), h.Addr)
 	txn := types.V2Transaction{MinerFee: req.MinerFee, FileContracts: []types.V2FileContract{fc}}
 	var renterSum types.Currency
 	for _, sce := range req.RenterInputs {
@@ -1320,7 +1342,7 @@ func (h *ByzHost) handleForm(s net.Conn) error {
 	}
 	sigHash := h.CS.ContractSigHash(fc)
 	txn.FileContracts[0].RenterSignature = second.RenterContractSignature
-	txn.FileContracts[0].HostSignature = h.Key.SignHash(sigHash)
+	txn.FileContracts[0].HostSignature = h.signer().SignHash(sigHash)
 	set := append(append([]types.V2Transaction(nil), req.RenterParents...), txn)
 	third := &proto4.RPCFormContractThirdResponse{Basis: req.Basis, TransactionSet: set}
 	return h.emit(s, 1, third, func(kind string) bool {
@@ -1346,7 +1368,7 @@ func (h *ByzHost) handleForm(s net.Conn) error {
 		case "payout-resign":
 			c.RenterOutput.Value = c.RenterOutput.Value.Sub(types.NewCurrency64(1))
 			c.HostOutput.Value = c.HostOutput.Value.Add(types.NewCurrency64(1))
-			c.HostSignature = h.Key.SignHash(h.CS.ContractSigHash(*c))
+			c.HostSignature = h.signer().SignHash(h.CS.ContractSigHash(*c))
 		case "collateral-keep-sigs":
 			c.MissedHostValue = types.ZeroCurrency
 		case "fee-alter":
@@ -1405,9 +1427,9 @@ func (h *ByzHost) renewLike(s net.Conn, contractID types.FileContractID, existin
 	renewalSigHash := h.CS.RenewalSigHash(renewal)
 	contractSigHash := h.CS.ContractSigHash(renewal.NewContract)
 	renewal.RenterSignature = renewalSig
-	renewal.HostSignature = h.Key.SignHash(renewalSigHash)
+	renewal.HostSignature = h.signer().SignHash(renewalSigHash)
 	renewal.NewContract.RenterSignature = contractSig
-	renewal.NewContract.HostSignature = h.Key.SignHash(contractSigHash)
+	renewal.NewContract.HostSignature = h.signer().SignHash(contractSigHash)
 	honestNew := renewal.NewContract
 	ren := renewal
 	txn.FileContractResolutions = []types.V2FileContractResolution{{
@@ -1456,8 +1478,8 @@ func (h *ByzHost) renewLike(s net.Conn, contractID types.FileContractID, existin
 			c.RenterPublicKey = OtherKey.PublicKey()
 		case "payout-resign":
 			c.RenterOutput.Value, c.HostOutput.Value = c.RenterOutput.Value.Sub(one), c.HostOutput.Value.Add(one)
-			c.HostSignature = h.Key.SignHash(h.CS.ContractSigHash(*c))
-			r.HostSignature = h.Key.SignHash(h.CS.RenewalSigHash(*r))
+			c.HostSignature = h.signer().SignHash(h.CS.ContractSigHash(*c))
+			r.HostSignature = h.signer().SignHash(h.CS.RenewalSigHash(*r))
 		case "rollover-keep-sigs":
 			r.RenterRollover = r.RenterRollover.Add(one)
 		case "renewal-sig-flip":
